@@ -241,6 +241,9 @@ def translate(repo, coq_dir, specs):
             name, coq_links(pre), coq_links(rep), coq_links(tail)))
         lines.append("")
     lines.append("Definition all_families : list family := [%s]." % "; ".join("fam_" + n for n in sorted(fams)))
+    nest = [n for n in sorted(fams) if info["families"][n]["rep_cost"] > 0]
+    lines.append("(* families whose repeated chain holds a non-push production (cost per level > 0) *)")
+    lines.append("Definition nesting_families : list family := [%s]." % "; ".join("fam_" + n for n in nest))
     text = "\n".join(lines) + "\n"
     path = os.path.join(coq_dir, "Robust", "GenDepth.v")
     old = open(path).read() if os.path.exists(path) else None
